@@ -31,6 +31,8 @@ import (
 	"sigs.k8s.io/controller-runtime/pkg/client/fake"
 
 	kaiv1 "github.com/NVIDIA/KAI-scheduler/pkg/apis/kai/v1"
+	kaiadmission "github.com/NVIDIA/KAI-scheduler/pkg/apis/kai/v1/admission"
+	kaibinder "github.com/NVIDIA/KAI-scheduler/pkg/apis/kai/v1/binder"
 	kaicommon "github.com/NVIDIA/KAI-scheduler/pkg/apis/kai/v1/common"
 	"github.com/NVIDIA/KAI-scheduler/pkg/apis/kai/v1/pod_grouper"
 	v2 "github.com/NVIDIA/KAI-scheduler/pkg/apis/scheduling/v2"
@@ -64,6 +66,21 @@ func opConfigs() []opConfig {
 		{"placement", func() kaiv1.ConfigSpec {
 			return kaiv1.ConfigSpec{Global: &kaiv1.GlobalConfig{NodeSelector: map[string]string{"pool": "infra"},
 				Tolerations: []corev1.Toleration{{Key: "dedicated", Operator: corev1.TolerationOpEqual, Value: "infra", Effect: corev1.TaintEffectNoSchedule}}}}
+		}},
+		// round 3: the other operands' own knobs, and an operand switched off (its objects must go away on an edit
+		// and a fresh install must not create them)
+		{"binder-cdi", func() kaiv1.ConfigSpec {
+			return kaiv1.ConfigSpec{Binder: &kaibinder.Binder{CDIEnabled: ptr.To(true), Replicas: ptr.To(int32(3))}}
+		}},
+		{"binder-disabled", func() kaiv1.ConfigSpec {
+			return kaiv1.ConfigSpec{Binder: &kaibinder.Binder{Service: &kaicommon.Service{Enabled: ptr.To(false)}}}
+		}},
+		{"admission-gpusharing", func() kaiv1.ConfigSpec {
+			return kaiv1.ConfigSpec{Admission: &kaiadmission.Admission{GPUSharing: ptr.To(true), Replicas: ptr.To(int32(2))}}
+		}},
+		{"pullsecrets-antiaffinity", func() kaiv1.ConfigSpec {
+			return kaiv1.ConfigSpec{Global: &kaiv1.GlobalConfig{ImagePullSecrets: []string{"regcred"}, RequireDefaultPodAntiAffinityTerm: ptr.To(true),
+				ReplicaCount: ptr.To(int32(3))}}
 		}},
 	}
 }
